@@ -7,6 +7,11 @@ pub(crate) struct FilePath {
 }
 
 impl FilePath {
+  /// Longest file path accepted when loading metainfo. No file system can hold
+  /// deeper paths, and the recursive directory tree renderer would overflow
+  /// the stack on them.
+  pub(crate) const MAX_COMPONENTS: usize = 2048;
+
   pub(crate) fn from_relative_path(path: &Path) -> Result<FilePath, Error> {
     let mut components = Vec::new();
 
